@@ -120,6 +120,19 @@ def gen_burst(rng, big=False):
     return {"family": "burst", "producers": prods, "sink": {"us": 0}, "script": []}
 
 
+def gen_oversize(rng):
+    """the flusher is idle (fast sink, everything written, asleep on its empty queue) when a line that alone exceeds the bound
+    arrives: it is dropped, and the drop has to show up in the output - with the next accepted line or, if none follows, at
+    shutdown"""
+    ops = [line_op(rng, rng.choice(["tiny", "small", "medium"])) for _ in range(rng.randint(0, 4))]
+    for _ in range(rng.randint(1, 3)):
+        ops.append({"k": "us", "n": rng.choice([3000, 6000, 12000])})
+        ops.append({"k": rng.choice(["log", "raw"]), "n": (1 << 20) + rng.choice([1, 2, 100, 4096, 1 << 19])})
+        ops.append({"k": "us", "n": rng.choice([0, 500, 3000])})
+        ops += [line_op(rng, rng.choice(["tiny", "small", "medium"])) for _ in range(rng.choice([0, 0, 1, 3]))]
+    return {"family": "oversize", "producers": [ops], "sink": {"us": 0}, "script": []}
+
+
 def gen_slow(rng):
     np_ = rng.randint(1, 6)
     prods = [body(rng, rng.randint(3, 25), ["tiny", "small", "small", "medium"], ctl=0.1, kmsg=0.03, pause=0.1) for _ in range(np_)]
@@ -263,6 +276,10 @@ def gen(rng, tier):
     for _ in range({"quick": 3, "thorough": 40, "search": 8}[tier]):
         sc = gen_late(rng)
         sc["jitter"] = rng.choice([0, 0, 2, 5])
+        yield sc
+    for _ in range({"quick": 12, "thorough": 120, "search": 30}[tier]):
+        sc = gen_oversize(rng)
+        sc["jitter"] = rng.choice([0, 0, 2])
         yield sc
     for sc in _gen(rng, tier):
         # schedule widening inside the critical sections; has an effect only when the tree carries the trace hooks
